@@ -106,6 +106,9 @@ ANTICIPATED = [
     ('[[1,2],[3,4]]^0.5', 'MathArrayError'), ('[[1,2],[3,4]]^i', 'MathArrayError'),
     ('[[1,2],[3,4]]^(1+2*i)', 'MathArrayError'), ('[[1,1],[1,1]]^-1', 'MathArrayError'),
     ('[[1,2],[3,4]]^sqrt(-4)', 'MathArrayError'),
+    # names with tensor indices, submitted with the wrong case (the "did you mean" hint)
+    ('A_{1}+1', 'UndefinedVariable'), ('t_{ij}^{k}*2', 'UndefinedVariable'), ('a_{1}+T_{IJ}^{k}', 'UndefinedVariable'),
+    ('a_{1}+zz', 'UndefinedVariable'), ('F_{2}(1)', 'UndefinedFunction'),
     # (shape errors are not listed: whether they are raised or graded depends on options that
     # an author may have registered class-wide)
 ]
@@ -181,7 +184,7 @@ class TenantWorld(object):
             enabled, weights = ['list', 'singlelist', 'simitem'], [2, 2, 1]
         n_ten = rng.randint(*prof['n_tenants'])
         shared = {}
-        n_shared = rng.choice([0, 0, 1, 2]) if prof.get('shared', True) else 0
+        n_shared = rng.choice([0, 1, 1, 2]) if prof.get('shared', True) else 0
         for k in range(n_shared):
             sid = 's%d' % k
             shared[sid] = P.shared_sub(rng, sid)
@@ -224,7 +227,7 @@ class TenantWorld(object):
             tenants[gid] = tp
             order.append(gid)
         for sid, sh in shared.items():
-            if rng.random() < 0.5:
+            if rng.random() < 0.6:
                 # the author also uses the shared subgrader on its own (one object, two roles)
                 tenants[sid] = {'bp': sh['bp'], 'configured': False, 'kind': 'text', 'kindname': 'shared',
                                 'pal': {'right': list(sh['items']['right']), 'wrong': list(sh['items']['wrong']),
@@ -525,6 +528,7 @@ class Run(object):
         self.dgn = {}
         self.last_call = {}
         self.dict_reg = {}
+        self.debug0 = {}
         self.dg2 = {}
         self.r3_jobs = []
 
@@ -553,6 +557,7 @@ class Run(object):
         self.graders[sid] = obj
         self.built_reg[sid] = copy.deepcopy(self.reg)
         self.dg[sid] = digest(obj.config)
+        self.debug0[sid] = bool(obj.config.get('debug'))
         return obj
 
     def build(self, gid):
@@ -573,6 +578,7 @@ class Run(object):
             self.graders[gid] = g
             self.dg[gid] = digest(g.config)
             self.dgn[gid] = self.noans(g)
+            self.debug0[gid] = bool(g.config.get('debug'))
         return o
 
     @staticmethod
@@ -942,7 +948,11 @@ class Run(object):
         """An anticipated problem keeps its specific error class (debug off), whatever ran before."""
         m = self.lib.mitx
         text, want = ANTICIPATED[ev['case']]
-        if want == 'MathArrayError':
+        if '_{' in text:
+            g = m.FormulaGrader(answers='a_{1}+T_{ij}^{k}', variables=['a_{1}', 'T_{ij}^{k}'],
+                                user_functions={'f_{2}': lambda x: x})
+            inp = text
+        elif want == 'MathArrayError':
             # a plain FormulaGrader: MatrixGrader options that an author may have registered
             # class-wide (suppress_matrix_messages) legitimately turn these into graded results
             g = m.FormulaGrader(answers='1', max_array_dim=2)
@@ -1051,7 +1061,9 @@ class Run(object):
                     if not rest.startswith(want_tag):
                         return bad('entry %d carries the tag %r..., not the tag of its own input %r'
                                    % (k, rest[:30], inp[k]))
-        if not g.config.get('debug'):
+        # the debug option as configured when the grader was built (not the live attribute,
+        # which a defect may have flipped)
+        if not self.debug0.get(ev['g'], bool(g.config.get('debug'))):
             for t in texts:
                 if BANNER in t or 'Student Response' in t or 'Expect value inferred' in t \
                         or 'Comparison Data for All' in t or 'Evaluation Data for Sample' in t:
